@@ -102,7 +102,7 @@ def T():
 def cases(tier, seed):
     if tier == 'quick':
         Ds, pats, reps = [1, 2, 3, 5, 8], ['random', 'zeros_high', 'last_only', 'x1_zero', 'alternating', 'big'], 1
-        Ps, shapes = [1, 2, 3, 1, 2, 5], [(), (1,), (3,), (2, 2), (2, 1, 2), (1, 3)]
+        Ps, shapes = [1, 2, 3, 1, 2, 5, 1, 2, 3, 1, 2, 33], [(), (1,), (3,), (2, 2), (2, 1, 2), (1, 3)]
     else:
         Ds, pats, reps = [1, 2, 3, 4, 6, 8, 10, 12], gen.PATTERNS, 1
         Ps, shapes = [1, 2, 3, 4], [(), (1,), (3,), (2, 2), (2, 1, 2), (1, 3)]
@@ -290,7 +290,8 @@ def run_case(ctx, case):
     if not np.array_equal(x.data, data):
         ctx.violation('%s:argument-modified' % name, {'fn': name, 'entry': ename})
     worst = 0.0
-    for pp in range(P):
+    dirs = range(P) if P <= 5 else sorted({0, P - 1, 31, 32} | {int(v) for v in rng.choice(P, 2, replace=False)})      # many directions: first, last, around 32, two more
+    for pp in dirs:
         for idx in _elements(shape, rng, 2 if name.startswith('hyperu') else 4):
             xs = data[(slice(None), pp) + idx]
             ref, maj = O.series(t['mp'], list(xs))
